@@ -4,6 +4,7 @@ package main
 // modelled library functions, dynamic calls; go statements; returns.
 
 import (
+	"go/constant"
 	"fmt"
 	"go/token"
 	"go/types"
@@ -443,6 +444,11 @@ func (fv *FnV) libCall(st *State, callee *ssa.Function, cc *ssa.CallCommon, pos 
 			implies(not(eq(r, bvLit(0xFFFD, 32))), and("(bvsle "+bvLit(0, 32)+" "+r+")", "(bvsle "+r+" "+bvLit(0x10FFFF, 32)+")")),
 			implies(and("(bvsle "+bvLit(0, 32)+" "+r+")", "(bvslt "+r+" "+bvLit(0x80, 32)+")"), eq(w, bvLit(1, 64)))))
 		return &SV{tup: []SV{{v: Val{r, bvSort(32)}, typ: types.Typ[types.Rune]}, {v: Val{w, sBV64}, typ: types.Typ[types.Int]}}, typ: sig.Results()}, nil
+	case "crypto/sha256.New", "crypto/sha1.New", "crypto/md5.New", "crypto/sha512.New":
+		// library contract: the constructor returns a usable (non-nil) hash.Hash
+		h := fv.c.Fresh("hash", sAny)
+		fv.assume(st, not(eq(h, "a!nil")))
+		return &SV{v: Val{h, sAny}, typ: sig.Results().At(0).Type()}, nil
 	case "fmt.Errorf", "errors.New":
 		e := fv.nonNilError(st, "new")
 		return &SV{v: Val{e, sAny}, typ: sig.Results().At(0).Type()}, nil
@@ -570,6 +576,33 @@ func (fv *FnV) libCall(st *State, callee *ssa.Function, cc *ssa.CallCommon, pos 
 		fv.havoc(st, lm, name)
 	}
 	res := fv.freshResults(st, sig, sanitize(callee.Name()))
+	switch name {
+	case "strings.Split", "strings.SplitN":
+		// library contract: splitting around a non-empty separator yields at least one piece (n == 0 excepted)
+		if c, ok := cc.Args[1].(*ssa.Const); ok && c.Value != nil && constant.StringVal(c.Value) != "" {
+			nOK := name == "strings.Split"
+			if !nOK {
+				if n, ok := cc.Args[2].(*ssa.Const); ok && n.Value != nil && n.Int64() != 0 {
+					nOK = true
+				}
+			}
+			if nOK {
+				fv.assume(st, "(bvsle "+bvLit(1, 64)+" (s!len "+res.v.T+"))")
+			}
+		}
+	case "(*regexp.Regexp).FindAllString":
+		// a pattern whose every match has at least one character (decided from the pattern's syntax tree) yields non-empty matches
+		if u, ok := cc.Args[0].(*ssa.UnOp); ok {
+			if gl, ok := u.X.(*ssa.Global); ok {
+				if pat, ok := g.globalPattern(gl); ok && patternMinLen(pat) >= 1 {
+					et := types.Typ[types.String]
+					arr := sel(fv.heapGet(st, g.compElem(et)), "(s!ref "+res.v.T+")")
+					fv.assume(st, fmt.Sprintf("(forall ((i!m (_ BitVec 64))) (! (=> (and (bvsle %s i!m) (bvslt i!m (s!len %s))) (bvslt %s (str!len (select %s (bvadd (s!off %s) i!m))))) :pattern ((select %s (bvadd (s!off %s) i!m)))))",
+						bvLit(0, 64), res.v.T, bvLit(0, 64), arr, res.v.T, arr, res.v.T))
+				}
+			}
+		}
+	}
 	// deterministic for scalar-only signatures
 	if len(lm.comps) == 0 && !lm.all && !lm.external {
 		allScalar := true
@@ -763,9 +796,8 @@ func (fv *FnV) doAppend(st *State, cc *ssa.CallCommon, pos token.Pos) (*SV, erro
 		fv.bulkAppendFacts(st, fa, oldArr, s, cc.Args[1], et)
 	}
 	// frame: the in-place case writes the existing backing array
-	if fv.k != nil && fv.k.HasMods {
-		fv.frameWriteCond(st, k, "(s!ref "+s+")", inPlace, pos)
-	}
+	// (appending nothing writes nothing)
+	fv.frameWriteCond(st, k, "(s!ref "+s+")", and(inPlace, not(eq(addLen, bvLit(0, 64)))), pos)
 	fv.dOrderCheck(st, pos)
 	nh := ite(inPlace, sto(h, "(s!ref "+s+")", inArr), sto(h, r2, grownArr))
 	fv.heapSet(st, k, nh)
